@@ -236,3 +236,691 @@ Proof.
   unfold is_op_type in H. apply andb_prop in H. destruct H as [H _].
   assert (0 <= token_endValueTokens)%Z by (vm_compute; discriminate). lia.
 Qed.
+(* ================================================================ 3. the switch of NextToken *)
+Definition classify_post (ch nx : N) (e : bool) (k : tkind) : Prop :=
+  match k with
+  | KConst1 => one_of ch single_starts = true
+  | KConst2 => existsb (fun p => (fst p =? ch) && (snd p =? nx)) double_starts = true
+  | KLineComment => ch = 47 /\ nx = 47
+  | KBlockComment => ch = 47 /\ nx = 42
+  | KString => ch = 34 \/ ch = 96
+  | KEnd => e = true /\ ch = 0
+  | KNul => e = false /\ ch = 0
+  | KNumber => ch <> 0 /\ (ch = 46 /\ isDigit nx = true \/ isDigit ch = true)
+  | KIdent => ch <> 0 /\ isLetter ch = true
+  | KIllegal => ch <> 0
+  end.
+
+Ltac eq_hyps := repeat match goal with
+  | H : (_ && _) = true |- _ => apply andb_prop in H; destruct H
+  | H : (_ =? _) = true |- _ => apply N.eqb_eq in H
+  | H : (_ =? _) = false |- _ => apply N.eqb_neq in H
+  | H : negb _ = true |- _ => apply negb_true_iff in H
+  | H : negb _ = false |- _ => apply negb_false_iff in H
+  end.
+
+(* leaf KConst1: ch is in a sublist of single_starts *)
+Ltac leaf1 H := cbn [classify_post]; exact (one_of_forallb _ _ (fun x => one_of x single_starts) H eq_refl).
+(* leaf KConst2 with the second byte fixed to c2 *)
+Ltac leaf2 H c2 := cbn [classify_post];
+  exact (one_of_forallb _ _ (fun x => existsb (fun p => (fst p =? x) && (snd p =? c2)) double_starts) H eq_refl).
+(* leaf KConst2 with the second byte equal to the first *)
+Ltac leaf2same H := cbn [classify_post];
+  exact (one_of_forallb _ _ (fun x => existsb (fun p => (fst p =? x) && (snd p =? x)) double_starts) H eq_refl).
+
+Lemma classify_spec ch nx e : classify_post ch nx e (classify ch nx e).
+Proof.
+  unfold classify.
+  destruct (one_of ch [61; 33; 58]) eqn:H1.
+  { destruct (nx =? 61) eqn:H2; [eq_hyps; subst nx; leaf2 H1 61|].
+    destruct ((nx =? 62) && (ch =? 61)) eqn:H3; [eq_hyps; subst; reflexivity|]. leaf1 H1. }
+  destruct (one_of ch [43; 45]) eqn:H2.
+  { destruct (nx =? ch) eqn:H3; [eq_hyps; subst nx; leaf2same H2|leaf1 H2]. }
+  destruct (one_of ch [37; 42; 59; 44; 123; 125; 40; 41; 91; 93; 94; 126]) eqn:H3; [leaf1 H3|].
+  destruct (ch =? 47) eqn:H4.
+  { eq_hyps; subst ch. destruct (nx =? 47) eqn:H5; [eq_hyps; now subst|].
+    destruct (nx =? 42) eqn:H6; [eq_hyps; now subst|]. reflexivity. }
+  destruct (one_of ch [124; 38]) eqn:H5.
+  { destruct (nx =? ch) eqn:H6; [eq_hyps; subst nx; leaf2same H5|leaf1 H5]. }
+  destruct (one_of ch [60; 62]) eqn:H6.
+  { destruct (nx =? ch) eqn:H7; [eq_hyps; subst nx; leaf2same H6|].
+    destruct (nx =? 61) eqn:H8; [eq_hyps; subst nx; leaf2 H6 61|leaf1 H6]. }
+  destruct (one_of ch [34; 96]) eqn:H7.
+  { cbn [classify_post]. unfold one_of in H7. cbn [existsb] in H7.
+    destruct (N.eqb_spec ch 34); [now left|]. destruct (N.eqb_spec ch 96); [now right|]. discriminate. }
+  destruct (ch =? 0) eqn:H8.
+  { eq_hyps. destruct e; cbn; auto. }
+  eq_hyps.
+  destruct (ch =? 46) eqn:H9.
+  { eq_hyps; subst ch. destruct (nx =? 46) eqn:H10; [eq_hyps; now subst|].
+    destruct (negb (isDigit nx)) eqn:H11; [reflexivity|]. eq_hyps. cbn. split; [lia|]. left; auto. }
+  destruct (isLetter ch) eqn:H10; [cbn; auto|].
+  destruct (isDigit ch) eqn:H11; cbn; auto.
+Qed.
+(* ================================================================ 4. one lemma per reader *)
+Lemma go_slice_ok r k : (k <= length r)%nat -> go_slice r k = Some (firstn k r).
+Proof. intros H. unfold go_slice. apply Nat.leb_le in H. now rewrite H. Qed.
+
+Lemma const1_spec ch :
+  one_of ch single_starts = true ->
+  exists ty, const1 ch = (ty, [ch]) /\ In (ty, ch) single_char_tokens /\ is_op_type ty = true.
+Proof.
+  intros H. pose proof (one_of_forallb _ _ single_ok H single_starts_ok) as K.
+  unfold single_ok in K. unfold const1. destruct (lookup_single ch) as [t|]; [|discriminate].
+  apply andb_prop in K. destruct K as [K K3]. apply andb_prop in K. destruct K as [K1 K2].
+  exists t. split; [|split; [|exact K2]].
+  - unfold encode_rune. now rewrite K3.
+  - apply existsb_exists in K1. destruct K1 as [[t' c'] [Hin He]]. cbn [fst snd] in He.
+    apply andb_prop in He. destruct He as [He1 He2]. apply Z.eqb_eq in He1. apply N.eqb_eq in He2. now subst.
+Qed.
+
+Lemma const2_spec c1 c2 :
+  existsb (fun p => (fst p =? c1) && (snd p =? c2)) double_starts = true ->
+  exists ty, const2 c1 c2 = (ty, [c1; c2]) /\ In (ty, (c1, c2)) two_char_tokens /\ is_op_type ty = true /\ c2 <> 0.
+Proof.
+  intros H. apply existsb_exists in H. destruct H as [[a b] [Hin He]]. cbn [fst snd] in He.
+  apply andb_prop in He. destruct He as [He1 He2]. apply N.eqb_eq in He1. apply N.eqb_eq in He2. subst a b.
+  pose proof double_starts_ok as K. rewrite forallb_forall in K. specialize (K _ Hin).
+  unfold double_ok in K. cbn [fst snd] in K. unfold const2.
+  destruct (lookup_double c1 c2) as [t|]; [|discriminate].
+  apply andb_prop in K. destruct K as [K K3]. apply andb_prop in K. destruct K as [K1 K2].
+  exists t. split; [reflexivity|]. split; [|split; [exact K2|]].
+  - apply existsb_exists in K1. destruct K1 as [[t' [a b]] [Hin' He]]. cbn [fst snd] in He.
+    apply andb_prop in He. destruct He as [He He3]. apply andb_prop in He. destruct He as [He1 He2].
+    apply Z.eqb_eq in He1. apply N.eqb_eq in He2. apply N.eqb_eq in He3. now subst.
+  - apply negb_true_iff in K3. now apply N.eqb_neq in K3.
+Qed.
+
+(* ---- line comments *)
+Lemma in_line_comment_47 : in_line_comment 47 = true. Proof. vm_compute. reflexivity. Qed.
+Lemma in_line_comment_10 : in_line_comment 10 = false. Proof. vm_compute. reflexivity. Qed.
+(* depends on the shape of the generated notEOL: the loop of readLineComment stops only at a newline *)
+Lemma in_line_comment_false c : in_line_comment c = false -> c = 10.
+Proof.
+  unfold in_line_comment, notEOL.
+  destruct (N.eqb_spec c 10); [auto|]. destruct (N.eqb_spec c 0); cbn; discriminate.
+Qed.
+
+Lemma read_line_comment_spec r2 :
+  exists body rest,
+    r2 = body ++ rest /\ Forall (fun c => c <> 10) body /\ (rest = [] \/ hd0 rest = 10 /\ rest <> []) /\
+    read_line_comment (47 :: 47 :: r2) = (Some (trim_space (47 :: 47 :: body)), (2 + length body)%nat).
+Proof.
+  set (n := span_len in_line_comment r2).
+  exists (firstn n r2), (skipn n r2).
+  destruct (span_len_split in_line_comment r2) as [E [A L]]. fold n in E, A, L.
+  split; [exact E|]. split; [|split].
+  - eapply Forall_impl; [|exact A]. cbn. intros c Hc ->. rewrite in_line_comment_10 in Hc. discriminate.
+  - destruct (span_len_stop in_line_comment r2) as [S|[c [r' [S Hc]]]]; fold n in S; [now left|].
+    right. rewrite S. cbn. split; [now apply in_line_comment_false|discriminate].
+  - unfold read_line_comment. cbn [tl span_len]. rewrite in_line_comment_47. fold n.
+    rewrite go_slice_ok by (cbn [length]; pose proof (span_len_le in_line_comment r2); fold n in H; lia).
+    cbn [option_map firstn]. rewrite L. reflexivity.
+Qed.
+
+Lemma firstn_exact {A} (a b : list A) : firstn (length a) (a ++ b) = a.
+Proof. rewrite firstn_app, Nat.sub_diag, firstn_all. cbn. apply app_nil_r. Qed.
+
+(* ---- block comments *)
+Lemma hd0_app_cons (a : list N) x y : hd0 (a ++ x :: y) = hd0 (a ++ [x]).
+Proof. destruct a; reflexivity. Qed.
+
+Lemma block_scan_spec r :
+  match block_scan r with
+  | (n, true) => exists pre rest, r = pre ++ 42 :: 47 :: rest /\ has_close (pre ++ [42]) = false /\ n = S (length pre)
+  | (n, false) => has_close r = false /\ n = S (length r)
+  end.
+Proof.
+  induction r as [|ch r IH]; cbn [block_scan]; [split; reflexivity|].
+  destruct ((ch =? 42) && (hd0 r =? 47)) eqn:E.
+  - apply andb_prop in E. destruct E as [E1 E2]. apply N.eqb_eq in E1. apply N.eqb_eq in E2.
+    destruct r as [|c r]; cbn in E2; [discriminate|]. subst.
+    exists [], r. repeat split.
+  - destruct (block_scan r) as [n [|]].
+    + destruct IH as [pre [rest [-> [Hc ->]]]]. exists (ch :: pre), rest. repeat split.
+      cbn [app has_close]. rewrite Hc. rewrite hd0_app_cons in E. now rewrite E.
+    + destruct IH as [Hc ->]. cbn [has_close length]. rewrite Hc, E. split; reflexivity.
+Qed.
+
+Lemma read_block_comment_spec r2 :
+  (exists pre rest, r2 = pre ++ 42 :: 47 :: rest /\ has_close (pre ++ [42]) = false /\
+     read_block_comment (47 :: 42 :: r2) = (Some (47 :: 42 :: pre ++ [42; 47]), (4 + length pre)%nat)) \/
+  (has_close r2 = false /\
+     read_block_comment (47 :: 42 :: r2) = (Some (47 :: 42 :: r2), length (47 :: 42 :: r2))).
+Proof.
+  unfold read_block_comment. cbn [tl]. pose proof (block_scan_spec r2) as B.
+  destruct (block_scan r2) as [n [|]].
+  - left. destruct B as [pre [rest [-> [Hc ->]]]]. exists pre, rest. repeat split; [exact Hc|].
+    replace (47 :: 42 :: pre ++ 42 :: 47 :: rest) with ((47 :: 42 :: pre ++ [42; 47]) ++ rest)
+      by (cbn [app]; rewrite <- app_assoc; reflexivity).
+    assert (L : S (2 + S (length pre)) = length (47 :: 42 :: pre ++ [42; 47])).
+    { cbn [length]. rewrite app_length. cbn [length]. lia. }
+    rewrite L. rewrite go_slice_ok by (rewrite app_length; lia).
+    rewrite firstn_exact. f_equal. rewrite <- L. lia.
+  - right. destruct B as [Hc ->]. split; [exact Hc|].
+    cbn [plus Nat.pred length]. rewrite go_slice_ok by (cbn [length]; lia).
+    f_equal. f_equal. change (47 :: 42 :: r2) with ([47; 42] ++ r2) at 1.
+    rewrite firstn_all2; [reflexivity|cbn [length app]; lia].
+Qed.
+(* ---- strings *)
+Definition hex_step (acc c : N) : N := acc * 16 + hex_val c.
+
+Lemma hex_value_eq h : hex_value h = fold_left hex_step h 0.
+Proof. reflexivity. Qed.
+
+Lemma read_hex_skipn n : forall r acc, snd (read_hex n r acc) = skipn n r.
+Proof.
+  induction n; intros r acc; cbn [read_hex]; [reflexivity|].
+  rewrite IHn. symmetry. apply skipn_S_tl.
+Qed.
+
+Lemma read_hex_app h : forall x acc, read_hex (length h) (h ++ x) acc = (fold_left hex_step h acc, x).
+Proof.
+  induction h as [|c h IH]; intros x acc; cbn [length read_hex app]; [reflexivity|].
+  cbn [tl hd0]. rewrite IH. reflexivity.
+Qed.
+
+(* when enough bytes remain, read_hex n decodes the next n bytes *)
+Lemma read_hex_enough n r acc :
+  skipn n r <> [] ->
+  exists h, length h = n /\ r = h ++ skipn n r /\ read_hex n r acc = (fold_left hex_step h acc, skipn n r).
+Proof.
+  intros H. exists (firstn n r).
+  assert (L : (n < length r)%nat).
+  { destruct (le_lt_dec (length r) n) as [Hle|]; [|assumption]. now rewrite skipn_all2 in H. }
+  assert (L2 : length (firstn n r) = n) by (rewrite firstn_length; lia).
+  split; [exact L2|]. split; [now rewrite firstn_skipn|].
+  rewrite <- (firstn_skipn n r) at 1. rewrite <- L2 at 1. apply read_hex_app.
+Qed.
+
+Lemma read_string_sound : forall fuel dq sep r buf k out ok k',
+  read_string fuel dq sep r buf k = Some (out, ok, k') ->
+  if ok then exists raw rest content,
+         r = raw ++ sep :: rest /\ str_body dq sep raw content /\ out = buf ++ content /\
+         k' = (k + length raw + 1)%nat
+  else (k + length r < k')%nat.
+Proof.
+  induction fuel as [|f IH]; intros dq sep r buf k out ok k' H; [discriminate|].
+  cbn [read_string] in H. destruct r as [|ch r1].
+  { inversion H; subst. cbn [length]. lia. }
+  destruct (dq && (ch =? 92)) eqn:Eesc.
+  - apply andb_prop in Eesc. destruct Eesc as [Edq Ech]. apply N.eqb_eq in Ech. subst ch dq.
+    destruct (assoc_byte simple_escapes (hd0 r1)) as [v|] eqn:Ea.
+    { apply IH in H. destruct ok.
+      - destruct H as [raw [rest [content [E [B [O K]]]]]].
+        destruct r1 as [|e r2]; [cbn [tl] in E; now destruct raw|]. cbn [tl hd0] in *. subst r2.
+        exists (92 :: e :: raw), rest, (v :: content). repeat split.
+        + now apply sb_simple.
+        + rewrite O, <- app_assoc. reflexivity.
+        + cbn [length]. lia.
+      - cbn [length]. rewrite tl_length in H. lia. }
+    destruct (hd0 r1 =? 117) eqn:E117.
+    { apply N.eqb_eq in E117. destruct (hd0_nz r1) as [c [r2 [-> Hc]]]; [rewrite E117; discriminate|].
+      cbn [hd0 tl] in *. subst c.
+      pose proof (read_hex_skipn 4 r2 0) as S4. destruct (read_hex 4 r2 0) as [v r3] eqn:Eh. cbn [snd] in S4. subst r3.
+      apply IH in H. destruct ok.
+      - destruct H as [raw [rest [content [E [B [O K]]]]]].
+        destruct (read_hex_enough 4 r2 0) as [h [Lh [Er2 Rh]]]; [rewrite E; now destruct raw|].
+        rewrite Eh in Rh. inversion Rh; subst v.
+        exists (92 :: 117 :: h ++ raw), rest, (encode_rune (hex_value h) ++ content). repeat split.
+        + rewrite Er2, E. cbn [app]. now rewrite <- app_assoc.
+        + now apply sb_u16.
+        + rewrite O, <- app_assoc. reflexivity.
+        + cbn [length]. rewrite app_length. lia.
+      - cbn [length]. rewrite skipn_length in H. lia. }
+    destruct (hd0 r1 =? 85) eqn:E85.
+    { apply N.eqb_eq in E85. destruct (hd0_nz r1) as [c [r2 [-> Hc]]]; [rewrite E85; discriminate|].
+      cbn [hd0 tl] in *. subst c.
+      pose proof (read_hex_skipn 8 r2 0) as S8. destruct (read_hex 8 r2 0) as [v r3] eqn:Eh. cbn [snd] in S8. subst r3.
+      apply IH in H. destruct ok.
+      - destruct H as [raw [rest [content [E [B [O K]]]]]].
+        destruct (read_hex_enough 8 r2 0) as [h [Lh [Er2 Rh]]]; [rewrite E; now destruct raw|].
+        rewrite Eh in Rh. inversion Rh; subst v.
+        exists (92 :: 85 :: h ++ raw), rest, (encode_rune (hex_value h) ++ content). repeat split.
+        + rewrite Er2, E. cbn [app]. now rewrite <- app_assoc.
+        + now apply sb_u32.
+        + rewrite O, <- app_assoc. reflexivity.
+        + cbn [length]. rewrite app_length. lia.
+      - cbn [length]. rewrite skipn_length in H. lia. }
+    destruct (hd0 r1 =? 120) eqn:E120.
+    { apply N.eqb_eq in E120. destruct (hd0_nz r1) as [c [r2 [-> Hc]]]; [rewrite E120; discriminate|].
+      cbn [hd0 tl] in *. subst c.
+      pose proof (read_hex_skipn 2 r2 0) as S2. destruct (read_hex 2 r2 0) as [v r3] eqn:Eh. cbn [snd] in S2. subst r3.
+      apply IH in H. destruct ok.
+      - destruct H as [raw [rest [content [E [B [O K]]]]]].
+        destruct (read_hex_enough 2 r2 0) as [h [Lh [Er2 Rh]]]; [rewrite E; now destruct raw|].
+        rewrite Eh in Rh. inversion Rh; subst v.
+        exists (92 :: 120 :: h ++ raw), rest, (hex_value h :: content). repeat split.
+        + rewrite Er2, E. cbn [app]. now rewrite <- app_assoc.
+        + now apply sb_hex.
+        + rewrite O, <- app_assoc. reflexivity.
+        + cbn [length]. rewrite app_length. lia.
+      - cbn [length]. rewrite skipn_length in H. lia. }
+    apply IH in H. destruct ok.
+    + destruct H as [raw [rest [content [E [B [O K]]]]]].
+      destruct r1 as [|e r2]; [cbn [tl] in E; now destruct raw|]. cbn [tl hd0] in *. subst r2.
+      apply N.eqb_neq in E117. apply N.eqb_neq in E85. apply N.eqb_neq in E120.
+      exists (92 :: e :: raw), rest, (e :: content). repeat split.
+      * now apply sb_other.
+      * rewrite O, <- app_assoc. reflexivity.
+      * cbn [length]. lia.
+    + cbn [length]. rewrite tl_length in H. lia.
+  - destruct (ch =? sep) eqn:Esep.
+    + apply N.eqb_eq in Esep. inversion H; subst.
+      exists [], r1, []. repeat split; [constructor|now rewrite app_nil_r|cbn [length]; lia].
+    + apply N.eqb_neq in Esep. apply IH in H. destruct ok.
+      * destruct H as [raw [rest [content [E [B [O K]]]]]]. subst r1.
+        exists (ch :: raw), rest, (ch :: content). repeat split.
+        -- now apply sb_char.
+        -- rewrite O, <- app_assoc. reflexivity.
+        -- cbn [length]. lia.
+      * cbn [length]. lia.
+Qed.
+
+Lemma read_string_complete dq sep raw content :
+  sep <> 92 -> str_body dq sep raw content ->
+  forall fuel rest buf k, (length raw < fuel)%nat ->
+  read_string fuel dq sep (raw ++ sep :: rest) buf k = Some (buf ++ content, true, (k + length raw + 1)%nat).
+Proof.
+  intros Hsep B. induction B; intros fuel rest buf k Hf; (destruct fuel as [|f]; [lia|]); cbn [read_string app].
+  - assert (E : (dq && (sep =? 92)) = false).
+    { apply N.eqb_neq in Hsep. rewrite Hsep. apply andb_false_r. }
+    rewrite E, N.eqb_refl, app_nil_r. cbn [length]. do 3 f_equal. lia.
+  - rewrite H. apply N.eqb_neq in H0. rewrite H0. rewrite IHB by (cbn [length] in Hf; lia).
+    rewrite <- app_assoc. cbn [length app]. do 3 f_equal. lia.
+  - subst dq. cbn [andb hd0 tl]. rewrite N.eqb_refl, H0.
+    rewrite IHB by (cbn [length] in Hf; lia). rewrite <- app_assoc. cbn [length app]. do 3 f_equal. lia.
+  - subst dq. cbn [andb hd0 tl]. rewrite N.eqb_refl, H0. cbn [N.eqb Pos.eqb].
+    rewrite <- app_assoc, <- H1, read_hex_app.
+    rewrite IHB by (cbn [length] in Hf; rewrite app_length in Hf; lia).
+    rewrite <- app_assoc. cbn [length]. rewrite app_length. do 3 f_equal. lia.
+  - subst dq. cbn [andb hd0 tl]. rewrite N.eqb_refl, H0. cbn [N.eqb Pos.eqb].
+    rewrite <- app_assoc, <- H1, read_hex_app.
+    rewrite IHB by (cbn [length] in Hf; rewrite app_length in Hf; lia).
+    rewrite <- app_assoc. cbn [length]. rewrite app_length. do 3 f_equal. lia.
+  - subst dq. cbn [andb hd0 tl]. rewrite N.eqb_refl, H0. cbn [N.eqb Pos.eqb].
+    rewrite <- app_assoc, <- H1, read_hex_app.
+    rewrite IHB by (cbn [length] in Hf; rewrite app_length in Hf; lia).
+    rewrite <- app_assoc. cbn [length app]. rewrite app_length. do 3 f_equal. lia.
+  - subst dq. cbn [andb hd0 tl]. rewrite N.eqb_refl, H0.
+    apply N.eqb_neq in H1. apply N.eqb_neq in H2. apply N.eqb_neq in H3. rewrite H1, H2, H3.
+    rewrite IHB by (cbn [length] in Hf; lia). rewrite <- app_assoc. cbn [length app]. do 3 f_equal. lia.
+Qed.
+
+Lemma read_string_fuel : forall fuel dq sep r buf k,
+  (length r < fuel)%nat -> read_string fuel dq sep r buf k <> None.
+Proof.
+  induction fuel as [|f IH]; intros dq sep r buf k Hf; [lia|].
+  cbn [read_string]. destruct r as [|ch r1]; [discriminate|]. cbn [length] in Hf.
+  assert (T : (length (tl r1) < f)%nat) by (rewrite tl_length; lia).
+  assert (S : forall n v r3, read_hex n (tl r1) 0 = (v, r3) -> (length r3 < f)%nat).
+  { intros n v r3 E. pose proof (read_hex_skipn n (tl r1) 0) as K. rewrite E in K. cbn [snd] in K. subst r3.
+    rewrite skipn_length. lia. }
+  destruct (dq && (ch =? 92)).
+  - destruct (assoc_byte simple_escapes (hd0 r1)); [now apply IH|].
+    destruct (hd0 r1 =? 117). { destruct (read_hex 4 (tl r1) 0) eqn:E. apply IH. eapply S; eauto. }
+    destruct (hd0 r1 =? 85). { destruct (read_hex 8 (tl r1) 0) eqn:E. apply IH. eapply S; eauto. }
+    destruct (hd0 r1 =? 120). { destruct (read_hex 2 (tl r1) 0) eqn:E. apply IH. eapply S; eauto. }
+    now apply IH.
+  - destruct (ch =? sep); [discriminate|]. apply IH. lia.
+Qed.
+(* ---- numbers *)
+Lemma hd0_len r c : hd0 r = c -> c <> 0 -> (1 <= length r)%nat.
+Proof. destruct r; cbn; intros; [congruence|lia]. Qed.
+
+Lemma eqb_len r c : (hd0 r =? c) = true -> c <> 0 -> (1 <= length r)%nat.
+Proof. intros H. apply N.eqb_eq in H. now apply hd0_len. Qed.
+
+Lemma read_number_spec ch r1 :
+  let '(ty, lit, k) := read_number ch (ch :: r1) in
+  (ty = token_INT \/ ty = token_FLOAT) /\ (1 <= k <= length (ch :: r1))%nat /\ lit = Some (firstn k (ch :: r1)).
+Proof.
+  unfold read_number. cbn [tl]. cbv zeta. set (r := ch :: r1).
+  assert (L : length r = S (length r1)) by reflexivity.
+  assert (T0 : (if ch =? 46 then token_FLOAT else token_INT) = token_INT \/
+               (if ch =? 46 then token_FLOAT else token_INT) = token_FLOAT) by (destruct (ch =? 46); auto).
+  destruct ((ch =? 48) && (hd0 r1 =? 120)) eqn:Ehex.
+  { apply andb_prop in Ehex. destruct Ehex as [_ E]. apply eqb_len in E; [|discriminate].
+    pose proof (span_len_le isHexDigit (tl r1)) as S. rewrite tl_length in S.
+    cbv beta iota. split; [exact T0|]. split; [lia|]. apply go_slice_ok. lia. }
+  destruct ((ch =? 48) && (hd0 r1 =? 98)) eqn:Ebin.
+  { apply andb_prop in Ebin. destruct Ebin as [_ E]. apply eqb_len in E; [|discriminate].
+    pose proof (span_len_le isBinaryDigit (tl r1)) as S. rewrite tl_length in S.
+    cbv beta iota. split; [exact T0|]. split; [lia|]. apply go_slice_ok. lia. }
+  set (n1 := span_len isDigitOrUnderscore r1).
+  assert (N1 : (n1 <= length r1)%nat) by apply span_len_le.
+  set (r2 := skipn (S n1) r).
+  assert (L2 : length r2 = (length r - S n1)%nat) by apply skipn_length.
+  destruct ((hd0 r2 =? 46) && (ch =? 46)) eqn:Edot2.
+  { cbv beta iota. split; [exact T0|]. split; [lia|]. apply go_slice_ok. lia. }
+  set (frac := if hd0 r2 =? 46 then _ else _).
+  assert (F : let '(t1, _, k2) := frac in (t1 = token_INT \/ t1 = token_FLOAT) /\ (S n1 <= k2 <= length r)%nat).
+  { subst frac. destruct (hd0 r2 =? 46) eqn:E46.
+    - apply eqb_len in E46; [|discriminate].
+      pose proof (span_len_le isDigitOrUnderscore (tl r2)) as S. rewrite tl_length in S.
+      split; [now right|]. lia.
+    - split; [exact T0|]. lia. }
+  destruct frac as [[t1 hasDigits2] k2]. destruct F as [T1 K2].
+  set (r3 := skipn k2 r).
+  assert (L3 : length r3 = (length r - k2)%nat) by apply skipn_length.
+  destruct (negb ((hd0 r3 =? 101) || (hd0 r3 =? 69))) eqn:Eexp.
+  { cbv beta iota. split; [exact T1|]. split; [lia|]. apply go_slice_ok. lia. }
+  destruct (negb hasDigits2).
+  { cbv beta iota. split; [exact T1|]. split; [lia|]. apply go_slice_ok. lia. }
+  apply negb_false_iff in Eexp.
+  assert (P3 : (1 <= length r3)%nat).
+  { apply orb_prop in Eexp. destruct Eexp as [E|E]; apply eqb_len in E; auto; discriminate. }
+  set (r4 := tl r3).
+  assert (L4 : length r4 = (length r3 - 1)%nat) by apply tl_length.
+  set (sgn := (hd0 r4 =? 43) || (hd0 r4 =? 45)).
+  set (r5 := if sgn then tl r4 else r4).
+  destruct (negb (isDigit (hd0 r5))).
+  { cbv beta iota. split; [exact T1|]. split; [lia|]. apply go_slice_ok. lia. }
+  assert (L5 : (length r5 + (if sgn then 1 else 0) <= length r4)%nat).
+  { subst r5. destruct sgn eqn:Es; [|lia]. subst sgn.
+    assert (1 <= length r4)%nat.
+    { apply orb_prop in Es. destruct Es as [E|E]; apply eqb_len in E; auto; discriminate. }
+    rewrite tl_length. lia. }
+  pose proof (span_len_le isDigitOrUnderscore r5) as S5.
+  cbv beta iota. split; [now right|]. split; [lia|]. apply go_slice_ok. lia.
+Qed.
+
+Lemma read_identifier_spec ch r1 :
+  exists k, (1 <= k <= length (ch :: r1))%nat /\ read_identifier (ch :: r1) = (Some (firstn k (ch :: r1)), k).
+Proof.
+  unfold read_identifier. cbn [tl]. pose proof (span_len_le IsAlphaNum r1) as Hs.
+  exists (S (span_len IsAlphaNum r1)). split; [cbn [length]; lia|].
+  rewrite go_slice_ok by (cbn [length]; lia). reflexivity.
+Qed.
+
+(* ================================================================ 5. NextToken at a token start *)
+Lemma scan_token_case lm r :
+  let '(ty, lit, k) := scan_token lm r in scan_case lm r ty lit k.
+Proof.
+  unfold scan_token. destruct r as [|ch r1].
+  { cbn [hd0 tl is_nil]. change (classify 0 0 true) with KEnd. cbv iota.
+    change (if lm then token_EOL else token_EOF) with (end_type lm). now apply SC_end. }
+  cbn [hd0 tl is_nil]. pose proof (classify_spec ch (hd0 r1) false) as C.
+  destruct (classify ch (hd0 r1) false); cbn [classify_post] in C.
+  - (* KConst1 *)
+    destruct (const1_spec ch C) as [ty [E [Hin Hop]]]. rewrite E. now apply (SC_const1 lm _ ch r1 ty).
+  - (* KConst2 *)
+    destruct (const2_spec ch (hd0 r1) C) as [ty [E [Hin [Hop Hnz]]]]. rewrite E.
+    destruct (hd0_nz r1 Hnz) as [c [r2 [-> Hc]]]. cbn [hd0] in *. now apply (SC_const2 lm _ ch c r2 ty).
+  - (* line comment *)
+    destruct C as [-> C2]. destruct (hd0_nz r1) as [c [r2 [-> Hc]]]; [rewrite C2; discriminate|].
+    cbn [hd0] in C2. subst c.
+    destruct (read_line_comment_spec r2) as [body [rest [E [Hb [Hr R]]]]]. rewrite R. cbn [with_lit].
+    rewrite E. now apply (SC_line lm _ body rest).
+  - (* block comment *)
+    destruct C as [-> C2]. destruct (hd0_nz r1) as [c [r2 [-> Hc]]]; [rewrite C2; discriminate|].
+    cbn [hd0] in C2. subst c.
+    destruct (read_block_comment_spec r2) as [[pre [rest [E [Hcl R]]]]|[Hcl R]]; rewrite R; cbn [with_lit].
+    + rewrite E. now apply (SC_block_closed lm _ pre rest).
+    + now apply (SC_block_open lm _ r2).
+  - (* string *)
+    assert (Hsep : ch <> 92) by (destruct C; subst; discriminate).
+    pose proof (read_string_fuel (S (length r1)) (ch =? 34) ch r1 [] 1 (Nat.lt_succ_diag_r _)) as Hf.
+    destruct (read_string (S (length r1)) (ch =? 34) ch r1 [] 1) as [[[str ok] k]|] eqn:R; [|congruence].
+    pose proof (read_string_sound _ _ _ _ _ _ _ _ _ R) as S. destruct ok.
+    + destruct S as [raw [rest [content [E [B [O K]]]]]]. cbn [app] in O. subst str r1.
+      replace k with (length raw + 2)%nat by lia. now apply (SC_string lm _ ch raw rest content).
+    + assert (U : unterminated ch r1).
+      { intros raw rest content E B. subst r1.
+        rewrite (read_string_complete _ _ _ _ Hsep B) in R by (rewrite app_length; cbn [length]; lia).
+        discriminate. }
+      destruct lm.
+      * apply (SC_unterminated_line true _ ch r1 k); auto.
+      * now apply (SC_unterminated_file false _ ch r1).
+  - (* KEnd: impossible, the input is not exhausted *)
+    destruct C; discriminate.
+  - (* NUL byte *)
+    now apply (SC_illegal lm _ ch r1).
+  - (* number *)
+    pose proof (read_number_spec ch r1) as R. destruct (read_number ch (ch :: r1)) as [[ty lit] k].
+    destruct R as [T [K ->]]. cbn [with_lit]. now apply SC_number.
+  - (* identifier *)
+    destruct (read_identifier_spec ch r1) as [k [K R]]. rewrite R. now apply SC_ident.
+  - (* other byte *)
+    now apply (SC_illegal lm _ ch r1).
+Qed.
+(* ================================================================ 6. next_token, lex_all: tiling and end marker *)
+Definition is_end_ty (ty : Z) : bool := Z.eqb ty token_EOF || Z.eqb ty token_EOL.
+
+Lemma is_end_unfold t : is_end t = is_end_ty (lt_type t).
+Proof. reflexivity. Qed.
+
+Lemma is_op_type_not_end ty : is_op_type ty = true -> is_end_ty ty = false /\ (0 <= ty)%Z.
+Proof.
+  intros H. destruct (is_op_type_not_special ty H) as (_ & A & _ & _ & _ & _ & _ & _ & B & C).
+  split; [|exact C]. unfold is_end_ty. apply Z.eqb_neq in A. apply Z.eqb_neq in B. now rewrite A, B.
+Qed.
+
+Lemma lookup_keyword_in_spec tbl w t : lookup_keyword_in tbl w = Some t -> exists k, In (k, t) tbl /\ bytes_eqb k w = true.
+Proof.
+  induction tbl as [|[k t'] tbl IH]; cbn [lookup_keyword_in]; [discriminate|].
+  destruct (bytes_eqb k w) eqn:E.
+  - intros H. inversion H; subst. exists k. split; [now left|exact E].
+  - intros H. destruct (IH H) as [k' [Hin Hk]]. exists k'. split; [now right|exact Hk].
+Qed.
+
+Lemma lookup_ident_type w : lookup_ident w = token_IDENT \/ is_op_type (lookup_ident w) = true.
+Proof.
+  unfold lookup_ident, lookup_keyword. destruct (lookup_keyword_in keyword_tokens w) as [t|] eqn:E; [|now left].
+  right. apply lookup_keyword_in_spec in E. destruct E as [k [Hin _]].
+  pose proof keyword_types_ok as K. rewrite forallb_forall in K. exact (K _ Hin).
+Qed.
+
+Lemma lookup_ident_not_end w : is_end_ty (lookup_ident w) = false /\ (0 <= lookup_ident w)%Z.
+Proof.
+  destruct (lookup_ident_type w) as [E|E]; [rewrite E; vm_compute; split; [reflexivity|discriminate]|].
+  now apply is_op_type_not_end.
+Qed.
+
+(* what is under a token returned by NextToken, by end marker or not *)
+Definition end_cond (lm : bool) (r : list N) : Prop :=
+  r = [] \/ lm = true /\ exists q r1, r = q :: r1 /\ (q = 34 \/ q = 96) /\ unterminated q r1.
+
+Lemma scan_case_facts lm r ty lit k :
+  scan_case lm r ty lit k ->
+  (1 <= k)%nat /\ (0 <= ty)%Z /\
+  if is_end_ty ty then ty = end_type lm /\ lit = [] /\ (length r < k)%nat /\ end_cond lm r
+  else (k <= length r)%nat.
+Proof.
+  intros H. destruct H.
+  - destruct (is_op_type_not_end _ H1) as [-> ?]. subst r. cbv iota. cbn [length]. repeat split; auto; lia.
+  - destruct (is_op_type_not_end _ H1) as [-> ?]. subst r. cbv iota. cbn [length]. repeat split; auto; lia.
+  - subst r. change (is_end_ty token_LINECOMMENT) with false. cbv iota. cbn [length]. rewrite app_length.
+    repeat split; try lia. vm_compute; discriminate.
+  - subst r. change (is_end_ty token_BLOCKCOMMENT) with false. cbv iota. cbn [length]. rewrite app_length. cbn [length].
+    repeat split; try lia. vm_compute; discriminate.
+  - subst r. change (is_end_ty token_BLOCKCOMMENT) with false. cbv iota. cbn [length].
+    repeat split; try lia. vm_compute; discriminate.
+  - subst r. change (is_end_ty token_STRING) with false. cbv iota. cbn [length]. rewrite app_length. cbn [length].
+    repeat split; try lia. vm_compute; discriminate.
+  - subst lm r. change (is_end_ty token_EOL) with true. cbv iota. cbn [length] in *.
+    repeat split; try lia; try (vm_compute; discriminate).
+    right. split; [reflexivity|]. exists q, r1. auto.
+  - subst lm r. change (is_end_ty token_ILLEGAL) with false. cbv iota. cbn [length].
+    repeat split; try lia. vm_compute; discriminate.
+  - subst r. assert (E : is_end_ty (end_type lm) = true) by (destruct lm; reflexivity). rewrite E.
+    repeat split; try (cbn [length]; lia); [destruct lm; vm_compute; discriminate|now left].
+  - subst r. change (is_end_ty token_ILLEGAL) with false. cbv iota. cbn [length].
+    repeat split; try lia. vm_compute; discriminate.
+  - assert (E : is_end_ty ty = false) by (destruct H; subst ty; reflexivity). rewrite E.
+    repeat split; try lia. destruct H; subst ty; vm_compute; discriminate.
+  - destruct (lookup_ident_not_end (firstn k r)) as [-> ?]. cbv iota. repeat split; auto; lia.
+Qed.
+
+(* one NextToken call described on the whole input *)
+Definition tok_at (lm : bool) (s : list N) (t : ltok) : Prop :=
+  (lt_start t <= lt_end t)%nat /\
+  scan_case lm (skipn (lt_start t) s) (lt_type t) (lt_lit t) (lt_end t - lt_start t).
+
+Lemma next_token_spec lm s pos :
+  let '(t, pos') := next_token lm s pos in
+  pos' = lt_end t /\ (pos <= lt_start t)%nat /\ ws_only s pos (lt_start t) /\
+  (forall c, nth_error s (lt_start t) = Some c -> isWhiteSpace c = false) /\ tok_at lm s t.
+Proof.
+  unfold next_token. set (r0 := skipn pos s). set (nws := span_len isWhiteSpace r0).
+  pose proof (scan_token_case lm (skipn nws r0)) as C.
+  destruct (scan_token lm (skipn nws r0)) as [[ty lit] k]. cbn [lt_start lt_end lt_type lt_lit].
+  split; [reflexivity|]. split; [lia|]. split; [|split].
+  - intros i Hi. destruct (span_len_all isWhiteSpace r0 (i - pos)) as [c [Hc Hw]]; [fold nws; lia|].
+    exists c. split; [|exact Hw]. unfold r0 in Hc. rewrite nth_error_skipn' in Hc.
+    now replace (pos + (i - pos))%nat with i in Hc by lia.
+  - intros c Hc. replace (pos + nws)%nat with (pos + nws + 0)%nat in Hc by lia.
+    rewrite <- nth_error_skipn', <- skipn_add in Hc. fold r0 in Hc.
+    destruct (span_len_stop isWhiteSpace r0) as [S|[c' [r' [S Hw]]]]; fold nws in S; rewrite S in Hc.
+    + discriminate.
+    + cbn in Hc. now inversion Hc; subst.
+  - unfold tok_at. cbn [lt_start lt_end lt_type lt_lit]. split; [lia|]. unfold r0 in C. rewrite skipn_add in C.
+    now replace (pos + nws + k - (pos + nws))%nat with k by lia.
+Qed.
+
+Lemma next_token_at_end lm s p :
+  (length s <= p)%nat -> next_token lm s p = (mkLtok (end_type lm) [] p (S p) false false, S p).
+Proof.
+  intros H. unfold next_token. rewrite (skipn_all2 s H). cbn [span_len skipn firstn existsb Nat.ltb Nat.leb].
+  change (scan_token lm []) with (end_type lm, @nil N, 1%nat).
+  rewrite Nat.add_0_r, Nat.add_1_r. reflexivity.
+Qed.
+
+(* after a token that is not an end marker the position is inside the input; after the end marker it is
+   beyond the input *)
+Lemma tok_at_facts lm s t :
+  tok_at lm s t ->
+  (0 <= lt_type t)%Z /\ (lt_start t < lt_end t)%nat /\
+  if is_end t then lt_type t = end_type lm /\ lt_lit t = [] /\ (length s < lt_end t)%nat /\ end_cond lm (skipn (lt_start t) s)
+  else (lt_end t <= length s)%nat.
+Proof.
+  intros [Hle C]. apply scan_case_facts in C. destruct C as [K [T C]]. rewrite is_end_unfold.
+  split; [exact T|]. split; [lia|]. rewrite skipn_length in C.
+  destruct (is_end_ty (lt_type t)).
+  - destruct C as [? [? [? ?]]]. repeat split; auto. lia.
+  - lia.
+Qed.
+
+Lemma lex_from_spec : forall fuel lm s pos,
+  (length s - pos < fuel)%nat ->
+  exists body e,
+    lex_from fuel lm s pos = body ++ [e] /\
+    Forall (fun t => is_end t = false /\ (lt_end t <= length s)%nat) body /\
+    is_end e = true /\
+    chain s pos (body ++ [e]) /\
+    Forall (tok_at lm s) (body ++ [e]) /\
+    (length body <= length s - pos)%nat.
+Proof.
+  induction fuel as [|f IH]; intros lm s pos Hf; [lia|].
+  cbn [lex_from]. pose proof (next_token_spec lm s pos) as N.
+  destruct (next_token lm s pos) as [t pos']. destruct N as [-> [Hle [Hws [Hnws Hat]]]].
+  pose proof (tok_at_facts lm s t Hat) as [Hty [Hlt Hk]].
+  assert (Hneg : Z.ltb (lt_type t) 0 = false) by (apply Z.ltb_ge; exact Hty). rewrite Hneg, orb_false_r.
+  destruct (is_end t) eqn:Eend.
+  - exists [], t. cbn [app chain length]. repeat split; auto; lia.
+  - destruct (IH lm s (lt_end t)) as [body [e [E [Hb [He [Hc [Hall Hlen]]]]]]]; [lia|].
+    exists (t :: body), e. rewrite E. cbn [app chain length].
+    split; [reflexivity|]. split; [constructor; auto|]. split; [exact He|].
+    split; [auto|]. split; [constructor; auto|]. lia.
+Qed.
+
+(* consequences of [chain] *)
+Lemma chain_starts s p toks : chain s p toks -> Forall (fun t => (p <= lt_start t)%nat) toks.
+Proof.
+  revert p. induction toks as [|t toks IH]; intros p H; [constructor|].
+  destruct H as [H1 [H2 [H3 H4]]]. constructor; [exact H1|].
+  eapply Forall_impl; [|apply (IH _ H4)]. cbn. intros. lia.
+Qed.
+
+(* spans are pairwise disjoint and in input order *)
+Lemma chain_ordered s p toks :
+  chain s p toks ->
+  forall i j ti tj, (i < j)%nat -> nth_error toks i = Some ti -> nth_error toks j = Some tj ->
+                    (lt_end ti <= lt_start tj)%nat.
+Proof.
+  revert p. induction toks as [|t toks IH]; intros p H i j ti tj Hij Hi Hj; [now destruct i|].
+  destruct H as [H1 [H2 [H3 H4]]]. destruct j as [|j]; [lia|]. cbn [nth_error] in Hj.
+  destruct i as [|i].
+  - cbn [nth_error] in Hi. inversion Hi; subst ti.
+    pose proof (chain_starts _ _ _ H4) as F. rewrite Forall_forall in F.
+    apply F. eapply nth_error_In; eauto.
+  - cbn [nth_error] in Hi. eapply (IH _ H4 i j); eauto. lia.
+Qed.
+
+(* every byte before the start of the last token is whitespace or inside the span of an earlier token *)
+Lemma chain_cover s p body e :
+  chain s p (body ++ [e]) ->
+  forall j, (p <= j < lt_start e)%nat ->
+    (exists c, nth_error s j = Some c /\ isWhiteSpace c = true) \/
+    (exists t, In t body /\ (lt_start t <= j < lt_end t)%nat).
+Proof.
+  revert p. induction body as [|t body IH]; intros p H j Hj; cbn [app chain] in H.
+  - destruct H as [H1 [H2 _]]. left. apply H2. lia.
+  - destruct H as [H1 [H2 [H3 H4]]].
+    destruct (lt_dec j (lt_start t)); [left; apply H2; lia|].
+    destruct (lt_dec j (lt_end t)); [right; exists t; split; [now left|lia]|].
+    destruct (IH _ H4 j) as [W|[t' [Hin Ht']]]; [lia|now left|].
+    right. exists t'. split; [now right|exact Ht'].
+Qed.
+
+Definition tiling (lm : bool) (s : list N) (toks : list ltok) : Prop :=
+  exists body e,
+    toks = body ++ [e] /\
+    (* the tokens before the end marker lie inside the input *)
+    Forall (fun t => is_end t = false /\ (0 <= lt_type t)%Z /\ (lt_end t <= length s)%nat) body /\
+    is_end e = true /\ lt_type e = end_type lm /\ lt_lit e = [] /\
+    (* in input order from position 0, non-empty spans, only whitespace between them *)
+    chain s 0 toks /\
+    (* pairwise disjoint *)
+    (forall i j ti tj, (i < j)%nat -> nth_error toks i = Some ti -> nth_error toks j = Some tj ->
+                       (lt_end ti <= lt_start tj)%nat) /\
+    (* every non-whitespace byte before the end marker is covered by a token *)
+    (forall j c, nth_error s j = Some c -> isWhiteSpace c = false -> (j < lt_start e)%nat ->
+                 exists t, In t body /\ (lt_start t <= j < lt_end t)%nat) /\
+    (* the end marker stands at the end of the input, or (line mode) on an unterminated string *)
+    ((length s <= lt_start e)%nat \/
+     lm = true /\ exists q r1, skipn (lt_start e) s = q :: r1 /\ (q = 34 \/ q = 96) /\ unterminated q r1) /\
+    (length s < lt_end e)%nat /\
+    (* at most n tokens before the end marker *)
+    (length body <= length s)%nat.
+
+Lemma lex_all_tiling lm s : tiling lm s (lex_all lm s).
+Proof.
+  unfold lex_all. destruct (lex_from_spec (length s + 2) lm s 0) as [body [e [E [Hb [He [Hc [Hall Hlen]]]]]]]; [lia|].
+  exists body, e. rewrite E.
+  assert (Hate : tok_at lm s e) by (rewrite Forall_forall in Hall; apply Hall, in_or_app; right; now left).
+  pose proof (tok_at_facts lm s e Hate) as [_ [_ F]]. rewrite He in F. destruct F as [F1 [F2 [F3 F4]]].
+  split; [reflexivity|]. split.
+  { rewrite Forall_forall in *. intros t Ht. destruct (Hb t Ht) as [B1 B2]. repeat split; auto.
+    apply (tok_at_facts lm s t). apply Hall, in_or_app. now left. }
+  repeat split; auto.
+  - eapply chain_ordered; eauto.
+  - intros j c Hj Hw Hlt. destruct (chain_cover _ _ _ _ Hc j) as [[c' [Hc' Hw']]|Ht]; [lia| |exact Ht].
+    rewrite Hj in Hc'. inversion Hc'; subst. congruence.
+  - destruct F4 as [F4|[F4 [q [r1 F5]]]].
+    + left. destruct (le_lt_dec (length s) (lt_start e)); [assumption|].
+      assert (length (skipn (lt_start e) s) = 0%nat) by now rewrite F4. rewrite skipn_length in H. lia.
+    + right. split; [exact F4|]. exists q, r1. exact F5.
+  - lia.
+Qed.
+
+Lemma lex_all_tok_at lm s t : In t (lex_all lm s) -> tok_at lm s t.
+Proof.
+  unfold lex_all. destruct (lex_from_spec (length s + 2) lm s 0) as [body [e [E [_ [_ [_ [Hall _]]]]]]]; [lia|].
+  rewrite E. rewrite Forall_forall in Hall. apply Hall.
+Qed.
+
+(* the end marker is reached after at most |s|+1 tokens and every later call returns it again *)
+Lemma lex_all_end_marker lm s :
+  (length (lex_all lm s) <= length s + 1)%nat /\
+  exists e, last (lex_all lm s) e = e /\ In e (lex_all lm s) /\ lt_type e = end_type lm /\ lt_lit e = [] /\
+    forall n, let p := (lt_end e + n)%nat in
+              next_token lm s p = (mkLtok (end_type lm) [] p (S p) false false, S p).
+Proof.
+  destruct (lex_all_tiling lm s) as [body [e [E [_ [_ [T [L [_ [_ [_ [_ [Hend Hlen]]]]]]]]]]]].
+  rewrite E. split; [rewrite app_length; cbn [length]; lia|].
+  exists e. repeat split; auto.
+  - apply last_last.
+  - apply in_or_app. right. now left.
+  - intros n p. apply next_token_at_end. lia.
+Qed.
